@@ -98,6 +98,14 @@ def values_part(ck, tier):
         if not ok:
             ck.violation("results independent of the order of the sample and of the evaluation points; scalar and array inputs agree",
                          {**ident, "x": xs[j]}, site="GaussianKDE.order")
+        # evaluation points enormously far outside the data, and infinite ones: no density there, cdf 0 on the left and 1 on the right
+        far = np.array([-np.inf, -1e300, -1e30, -1e12, 1e12, 1e30, 1e300, np.inf])
+        with np.errstate(all="ignore"):
+            p_far, c_far = np.asarray(kde(far), dtype=float), np.asarray(kde.cdf(far), dtype=float)
+            c_one = [float(kde.cdf(float(v))) for v in far]
+        if not (np.array_equal(p_far, np.zeros(8)) and np.array_equal(c_far, [0, 0, 0, 0, 1, 1, 1, 1]) and c_one == [0, 0, 0, 0, 1, 1, 1, 1]):
+            ck.violation("far outside the data range the density is 0 and the cumulative function is 0 on the left, 1 on the right (non-decreasing)",
+                         {**ident, "points": far, "pdf": p_far, "cdf": c_far, "cdf_scalar_calls": c_one}, site="GaussianKDE.cdf:far")
         # one work array re-filled IN PLACE between two evaluations (the same array object, other points): the values at its current content
         buf = xs.copy()
         kde(buf)
